@@ -12,6 +12,7 @@
 //   kill <k>                         literal crash: SIGKILL the tracee right before the k-th mutating syscall of the window
 //   fault <k> <errno> [<logfile>]    make the k-th file-system syscall of the window (1-based, counted over the `record` order) fail with -errno
 //                                    without executing it; `shortwrite <k> <n>` truncates the byte count of the k-th write instead
+//   schedule <out> <choices> <n> <in0> <out0> ... -- prog   (several tracees, see schedule_main below)
 // The tracee's stdin/stdout are inherited, so the Python client talks to p11sh as usual.
 #include <cerrno>
 #include <cstdio>
@@ -98,6 +99,264 @@ static const Sc TABLE[] = {
 	{SYS_read, "read", false, false, true}, {SYS_fchmod, "fchmod", false, false, true}, {SYS_chmod, "chmod", true, false, false},
 };
 
+// ------------------------------------------------------------------------------------------------------------------------------
+// schedule mode: N tracees (p11sh processes working on the same token directory), each talking to the client over its own pair of
+// inherited descriptors.  Outside the window all tracees run freely (the client serialises them by waiting for every answer).  Each
+// tracee announces the call under test with MARK 1 and is held there; when all N are held the window begins: exactly ONE tracee runs
+// at a time, and the entry of every file-system syscall on the shared directory is a scheduling point at which the controller
+// decides, from the <choices> list (index into the canonical enabled list: the running tracee first if it is still enabled, then
+// ascending ids; default 0 once the list is exhausted), whose pending syscall executes next.  A tracee that sleeps in
+// fcntl(F_SETLKW) is blocked (disabled) until the lock is granted; no enabled tracee while some are blocked is a deadlock.  The
+// window ends when every tracee has reached MARK 2 (or exited); then all run freely again.  <out> receives one JSON object:
+//   {"points":[[running,chosen,"syscall path",[enabled...]],...],"error":"","blocked_events":k}
+struct Tr {
+	pid_t pid = 0;
+	bool entry = true;          // next syscall stop is an entry
+	int state = 0;              // 0 free-running, 1 held at MARK 1 / in window, 2 window done (held at MARK 2), 3 exited
+	bool blocked = false;       // sleeping in F_SETLKW
+	bool at_exit_pending = false; // stopped at the exit of the lock syscall after having been blocked
+	long cur_nr = -1;
+	std::string pending;        // description of the pending (not yet executed) syscall
+	std::map<long, std::string> fdpath;
+	int sig = 0;
+};
+
+static char proc_state(pid_t pid)
+{
+	char path[64], buf[512];
+	snprintf(path, sizeof path, "/proc/%d/stat", (int)pid);
+	int fd = open(path, O_RDONLY);
+	if (fd < 0) return '?';
+	ssize_t n = read(fd, buf, sizeof buf - 1);
+	close(fd);
+	if (n <= 0) return '?';
+	buf[n] = 0;
+	char* p = strrchr(buf, ')');
+	return (p && p[1] == ' ') ? p[2] : '?';
+}
+
+static bool skip_path(const std::string& path)
+{
+	return path.compare(0, 5, "/dev/") == 0 || path.compare(0, 6, "/proc/") == 0 || path.compare(0, 5, "/etc/") == 0 || path.compare(0, 5, "/usr/") == 0 || path.compare(0, 5, "/lib/") == 0 || path.compare(0, 5, "/sys/") == 0;
+}
+
+// classify the syscall a tracee is about to enter; returns true when it is a scheduling point (file-system operation on the shared directory)
+static bool interesting(Tr& t, const struct user_regs_struct& regs, std::string& desc)
+{
+	long nr = regs.orig_rax;
+	std::string path;
+	const char* name = NULL;
+	switch (nr) {
+	case SYS_open: name = "open"; path = read_string(t.pid, regs.rdi); break;
+	case SYS_openat: name = "openat"; path = read_string(t.pid, regs.rsi); break;
+	case SYS_creat: name = "creat"; path = read_string(t.pid, regs.rdi); break;
+	case SYS_stat: name = "stat"; path = read_string(t.pid, regs.rdi); break;
+	case SYS_lstat: name = "lstat"; path = read_string(t.pid, regs.rdi); break;
+	case SYS_access: name = "access"; path = read_string(t.pid, regs.rdi); break;
+	case SYS_newfstatat: name = "fstatat"; path = read_string(t.pid, regs.rsi); if (path.empty()) { auto it = t.fdpath.find((long)(int)regs.rdi); if (it == t.fdpath.end()) return false; path = it->second; } break;
+	case SYS_unlink: name = "unlink"; path = read_string(t.pid, regs.rdi); break;
+	case SYS_unlinkat: name = "unlinkat"; path = read_string(t.pid, regs.rsi); break;
+	case SYS_rename: name = "rename"; path = read_string(t.pid, regs.rdi) + ">" + read_string(t.pid, regs.rsi); break;
+	case SYS_renameat: case SYS_renameat2: name = "renameat"; path = read_string(t.pid, regs.rsi) + ">" + read_string(t.pid, regs.r10); break;
+	case SYS_mkdir: name = "mkdir"; path = read_string(t.pid, regs.rdi); break;
+	case SYS_rmdir: name = "rmdir"; path = read_string(t.pid, regs.rdi); break;
+	case SYS_truncate: name = "truncate"; path = read_string(t.pid, regs.rdi); break;
+	case SYS_read: case SYS_pread64: case SYS_write: case SYS_pwrite64: case SYS_writev: case SYS_ftruncate: case SYS_close: case SYS_fcntl: case SYS_flock: case SYS_getdents64: case SYS_fstat: {
+		long fd = (long)(int)regs.rdi;
+		if (fd >= 0 && fd <= 2) return false;
+		auto it = t.fdpath.find(fd);
+		if (it == t.fdpath.end()) return false;
+		path = it->second;
+		name = nr == SYS_read ? "read" : nr == SYS_pread64 ? "pread" : nr == SYS_write ? "write" : nr == SYS_pwrite64 ? "pwrite" : nr == SYS_writev ? "writev" : nr == SYS_ftruncate ? "ftruncate" :
+		       nr == SYS_close ? "close" : nr == SYS_fcntl ? "fcntl" : nr == SYS_flock ? "flock" : nr == SYS_getdents64 ? "getdents" : "fstat";
+		if (nr == SYS_fcntl) {
+			long cmd = (long)regs.rsi;
+			if (cmd != F_SETLK && cmd != F_SETLKW && cmd != F_GETLK) return false;      // F_GETFL, F_SETFD ... do not touch shared state
+			struct flock fl; memset(&fl, 0, sizeof fl);
+			struct iovec l = {&fl, sizeof fl}, r = {(void*)regs.rdx, sizeof fl};
+			process_vm_readv(t.pid, &l, 1, &r, 1, 0);
+			static std::string nm; nm = std::string(cmd == F_SETLKW ? "lockw" : cmd == F_SETLK ? "lock" : "getlk") + (fl.l_type == F_RDLCK ? ":rd" : fl.l_type == F_WRLCK ? ":wr" : ":un");
+			name = nm.c_str();
+		}
+		break; }
+	default: return false;
+	}
+	if (path.empty() || skip_path(path)) return false;
+	// keep only the file name part below the token directory: absolute scratch paths differ between runs
+	size_t k = path.find("/tokens/");
+	std::string shortp = (k == std::string::npos) ? path : path.substr(k + 8);
+	size_t k2 = shortp.find(">");
+	if (k2 != std::string::npos) { std::string b = shortp.substr(k2 + 1); size_t k3 = b.find("/tokens/"); if (k3 != std::string::npos) shortp = shortp.substr(0, k2 + 1) + b.substr(k3 + 8); }
+	desc = std::string(name) + " " + shortp;
+	return true;
+}
+
+static void track_exit(Tr& t, const struct user_regs_struct& regs)
+{
+	long nr = t.cur_nr;
+	if ((nr == SYS_openat || nr == SYS_open || nr == SYS_creat) && (long)regs.rax >= 0) {
+		std::string p = read_string(t.pid, nr == SYS_openat ? regs.rsi : regs.rdi);
+		if (!skip_path(p)) t.fdpath[(long)regs.rax] = p; else t.fdpath.erase((long)regs.rax);
+	}
+	if (nr == SYS_close) t.fdpath.erase((long)(int)regs.rdi);
+}
+
+// wait for the next stop of tracee t; returns 0 = syscall stop, 1 = exited, 2 = blocked in F_SETLKW (only when may_block)
+static int wait_stop(Tr& t, bool may_block)
+{
+	int st = 0;
+	int sleeps = 0;
+	for (;;) {
+		pid_t r = waitpid(t.pid, &st, may_block ? (WNOHANG | __WALL) : __WALL);
+		if (r < 0) { if (errno == EINTR) continue; return 1; }
+		if (r == 0) {
+			char c = proc_state(t.pid);
+			if (c == 'S') { if (++sleeps >= 3) return 2; } else sleeps = 0;
+			usleep(100);
+			continue;
+		}
+		if (WIFEXITED(st) || WIFSIGNALED(st)) { t.state = 3; return 1; }
+		if (!WIFSTOPPED(st)) continue;
+		int ss = WSTOPSIG(st);
+		if (ss == (SIGTRAP | 0x80)) return 0;
+		// signal delivery stop: pass the signal on and keep going
+		int sig = (ss != SIGTRAP && ss != SIGSTOP) ? ss : 0;
+		if (ptrace(PTRACE_SYSCALL, t.pid, 0, sig) != 0) { t.state = 3; return 1; }
+	}
+}
+
+// run tracee t from its current stop up to its next scheduling stop.  returns 0 = stopped at an interesting entry (t.pending set),
+// 1 = exited, 2 = blocked, 3 = reached MARK 2
+static int advance(Tr& t)
+{
+	for (;;) {
+		bool lockw = false;
+		if (!t.at_exit_pending) {
+			if (!t.entry && t.cur_nr == SYS_fcntl) lockw = true;       // we are at the entry stop of an fcntl: its exit may not come
+			if (ptrace(PTRACE_SYSCALL, t.pid, 0, 0) != 0) { t.state = 3; return 1; }
+			int w = wait_stop(t, lockw);
+			if (w == 1) return 1;
+			if (w == 2) { t.blocked = true; return 2; }
+		}
+		t.at_exit_pending = false;
+		struct user_regs_struct regs;
+		if (ptrace(PTRACE_GETREGS, t.pid, 0, &regs) != 0) { t.state = 3; return 1; }
+		if (t.entry) {
+			t.entry = false;
+			t.cur_nr = regs.orig_rax;
+			if (t.cur_nr == SYS_ioctl && (int)regs.rdi == -1 && (regs.rsi & 0xFFFF0000UL) == MAGIC) {
+				if ((regs.rsi & 0xFFFF) == 2) { t.state = 2; t.pending = "window-end"; return 3; }
+				continue;
+			}
+			std::string d;
+			if (interesting(t, regs, d)) { t.pending = d; return 0; }
+		} else {
+			t.entry = true;
+			track_exit(t, regs);
+		}
+	}
+}
+
+static int schedule_main(std::vector<std::string>& margs, char** prog)
+{
+	std::string outfile = margs.at(0);
+	std::vector<int> choices;
+	{ const char* c = margs.at(1).c_str(); char* e; while (*c) { if (*c == ',' || *c == '-') { c++; continue; } long v = strtol(c, &e, 10); if (e == c) break; choices.push_back((int)v); c = e; } }
+	int n = atoi(margs.at(2).c_str());
+	std::vector<Tr> T(n);
+	for (int i = 0; i < n; i++) {
+		int fin = atoi(margs.at(3 + 2 * i).c_str()), fout = atoi(margs.at(4 + 2 * i).c_str());
+		pid_t pid = fork();
+		if (pid == 0) {
+			dup2(fin, 0); dup2(fout, 1);
+			for (int fd = 3; fd < 256; fd++) close(fd);
+			ptrace(PTRACE_TRACEME, 0, 0, 0);
+			raise(SIGSTOP);
+			execv(prog[0], prog);
+			_exit(127);
+		}
+		T[i].pid = pid;
+		int st; waitpid(pid, &st, __WALL);
+		ptrace(PTRACE_SETOPTIONS, pid, 0, PTRACE_O_TRACESYSGOOD | PTRACE_O_EXITKILL);
+	}
+	for (int i = 0; i < n; i++) { close(atoi(margs.at(3 + 2 * i).c_str())); close(atoi(margs.at(4 + 2 * i).c_str())); }
+	std::string points, error;
+	long blocked_events = 0, npoints = 0;
+	bool window_done = false;
+	for (int i = 0; i < n; i++) ptrace(PTRACE_SYSCALL, T[i].pid, 0, 0);
+	// free-running multiplexer
+	for (;;) {
+		int alive = 0; for (auto& t : T) if (t.state != 3) alive++;
+		if (!alive) break;
+		int held = 0, inwin = 0; for (auto& t : T) { if (t.state == 1) held++; if (t.state != 3) inwin++; }
+		if (!window_done && held > 0 && held == inwin) {
+			// ---------------- the window: one tracee at a time
+			int cur = -1;
+			size_t ci = 0;
+			for (;;) {
+				// blocked tracees whose lock has been granted meanwhile (state is no longer 'S') become enabled again
+				for (auto& t : T) if (t.state == 1 && t.blocked) {
+					char c = proc_state(t.pid);
+					if (c != 'S') { int w = wait_stop(t, false); if (w == 0) { t.blocked = false; t.at_exit_pending = true; } }
+				}
+				std::vector<int> en;
+				if (cur >= 0 && T[cur].state == 1 && !T[cur].blocked) en.push_back(cur);
+				for (int i = 0; i < n; i++) if (i != cur && T[i].state == 1 && !T[i].blocked) en.push_back(i);
+				if (en.empty()) {
+					bool anyb = false; for (auto& t : T) if (t.state == 1 && t.blocked) anyb = true;
+					if (anyb) error = "deadlock: every unfinished process waits for a file lock";
+					break;
+				}
+				int idx = ci < choices.size() ? choices[ci] : 0;
+				ci++;
+				if (idx < 0 || idx >= (int)en.size()) { error = "schedule choice out of range"; break; }
+				int ch = en[idx];
+				char tmp[64];
+				snprintf(tmp, sizeof tmp, "%s[%d,%d,\"", npoints ? "," : "", (cur >= 0 && T[cur].state == 1 && !T[cur].blocked) ? cur : -1, ch);
+				points += tmp; points += jesc(T[ch].pending); points += "\",[";
+				for (size_t k = 0; k < en.size(); k++) { snprintf(tmp, sizeof tmp, "%s%d", k ? "," : "", en[k]); points += tmp; }
+				points += "]]";
+				npoints++;
+				int w = advance(T[ch]);
+				if (w == 2) blocked_events++;
+				cur = ch;
+				if (npoints > 20000) { error = "more than 20000 scheduling points"; break; }
+			}
+			window_done = true;
+			// release everybody (window done, blocked or not)
+			for (auto& t : T) if (t.state == 1 || t.state == 2) { t.state = 0; if (!t.blocked) ptrace(PTRACE_SYSCALL, t.pid, 0, 0); t.blocked = false; t.at_exit_pending = false; }
+			FILE* f = fopen(outfile.c_str(), "w");
+			if (f) { fprintf(f, "{\"points\":[%s],\"error\":\"%s\",\"blocked_events\":%ld}\n", points.c_str(), jesc(error).c_str(), blocked_events); fclose(f); }
+			continue;
+		}
+		int st = 0;
+		pid_t r = waitpid(-1, &st, __WALL);
+		if (r < 0) { if (errno == EINTR) continue; break; }
+		Tr* t = NULL; for (auto& x : T) if (x.pid == r) t = &x;
+		if (!t) continue;
+		if (WIFEXITED(st) || WIFSIGNALED(st)) { t->state = 3; continue; }
+		if (!WIFSTOPPED(st)) continue;
+		int ss = WSTOPSIG(st);
+		if (ss != (SIGTRAP | 0x80)) { ptrace(PTRACE_SYSCALL, r, 0, (ss != SIGTRAP && ss != SIGSTOP) ? ss : 0); continue; }
+		struct user_regs_struct regs;
+		if (ptrace(PTRACE_GETREGS, r, 0, &regs) != 0) { t->state = 3; continue; }
+		if (t->entry) {
+			t->entry = false;
+			t->cur_nr = regs.orig_rax;
+			if (!window_done && t->cur_nr == SYS_ioctl && (int)regs.rdi == -1 && (regs.rsi & 0xFFFF0000UL) == MAGIC && (regs.rsi & 0xFFFF) == 1) {
+				t->state = 1; t->pending = "window-start";
+				continue;       // held at the entry of the marker
+			}
+		} else {
+			t->entry = true;
+			track_exit(*t, regs);
+		}
+		ptrace(PTRACE_SYSCALL, r, 0, 0);
+	}
+	if (!window_done) { FILE* f = fopen(outfile.c_str(), "w"); if (f) { fprintf(f, "{\"points\":[],\"error\":\"window never started\",\"blocked_events\":0}\n"); fclose(f); } }
+	return 0;
+}
+
 int main(int argc, char** argv)
 {
 	if (argc < 4) { fprintf(stderr, "usage: fsx <mode> [args] -- program...\n"); return 2; }
@@ -107,6 +366,7 @@ int main(int argc, char** argv)
 	for (; i < argc && strcmp(argv[i], "--"); i++) margs.push_back(argv[i]);
 	if (i >= argc - 0 || i + 1 >= argc) { fprintf(stderr, "fsx: missing program\n"); return 2; }
 	char** prog = argv + i + 1;
+	if (mode == "schedule") return schedule_main(margs, prog);
 
 	pid_t pid = fork();
 	if (pid < 0) { perror("fork"); return 2; }
